@@ -4,13 +4,16 @@
 //   (in a thread-specific rotation) over Arc-shared operands and an Arc-shared variable set; the op
 //   list is also executed sequentially three times. Result:
 //   (R (L sequential-results...) same_repeats same_threads pool_unchanged first_divergence)
+#![allow(unused_imports, dead_code)]
 use crate::ops::*;
 use crate::sexp::S;
 use biodivine_lib_bdd::*;
 use std::sync::Arc;
 
-// compile-time: the value types are Send + Sync
+// compile-time: the value types are Send + Sync (feature `sendsync`, built by the C19 check)
+#[cfg(feature = "sendsync")]
 fn _assert_send_sync<T: Send + Sync>() {}
+#[cfg(feature = "sendsync")]
 #[allow(dead_code)]
 fn _static_assertions() {
     _assert_send_sync::<Bdd>();
@@ -54,6 +57,10 @@ fn exec(pool: &[Bdd], vars: &BddVariableSet, c: &[S]) -> S {
             let t = d_table(&a[0], 9);
             e_bdd(&Bdd::fused_binary_flip_op((p(4), d_optvar(&a[1])), (p(5), d_optvar(&a[2])), d_optvar(&a[3]), table2(t)))
         }
+        "binlim" => e_optbdd(&Bdd::binary_op_with_limit(d_usize(&a[0]), p(2), p(3), table2(d_table(&a[1], 9)))),
+        "drybin" => e_opt(&Bdd::check_binary_op(d_usize(&a[0]), p(2), p(3), table2(d_table(&a[1], 9))), |(f, n)| {
+            S::list("P", vec![S::boolean(*f), S::int(*n)])
+        }),
         "exists" => e_bdd(&p(0).exists(&d_vars(&a[1]))),
         "for_all" => e_bdd(&p(0).for_all(&d_vars(&a[1]))),
         "bin_exists" => e_bdd(&Bdd::binary_op_with_exists(p(1), p(2), table2(d_table(&a[0], 9)), &d_vars(&a[3]))),
@@ -119,6 +126,12 @@ fn guarded(pool: &[Bdd], vars: &BddVariableSet, c: &S) -> S {
     }
 }
 
+#[cfg(not(feature = "conc"))]
+pub fn run(_c: &[S]) -> Option<S> {
+    None
+}
+
+#[cfg(feature = "conc")]
 pub fn run(c: &[S]) -> Option<S> {
     let op = c[0].as_atom();
     let a = &c[1..];
